@@ -1,29 +1,54 @@
-"""R-WIRE rule instances shared by C06/C08/C09/C13/C14/C18/C20 (filled in by the wire engine)."""
+"""R-WIRE rule instances shared by C06/C08/C13/C14/C18/C20: the same engine as C09, restricted to the pairs the property anchors."""
+from ylib import wire as W
+from . import c09
+
+
+def _wire(R, ctx, rid, names):
+    wc = c09.rule_wire(R, ctx, rid, only=set(names))
+    return wc
+
+
+def _counts(R, ctx, wc, rid, fns):
+    sub = type(R)(R.prop, R.tier)
+    c09.rule_counts(sub, ctx, wc, rid)
+    R.rules.update(sub.rules)
+    n = 0
+    for o in sub.obs:
+        if o.fn in fns:
+            R.obs.append(o)
+            n += 1
+    R.floor(rid, "count obligations for %s" % sorted(f.rsplit("::", 1)[-1] for f in fns), n, len(fns))
 
 
 def c06_a(R, ctx):
-    pass
+    wc = _wire(R, ctx, "C06.a", ["Update", "Block"])
+    _counts(R, ctx, wc, "C06.a.count", {"yrs::store::Store::write_blocks_from", "yrs::store::Store::write_blocks_to",
+                                         "yrs::update::Update::encode_diff", "<yrs::update::Update as yrs::updates::decoder::Decode>::decode"})
 
 
 def c08_c(R, ctx):
-    pass
+    wc = _wire(R, ctx, "C08.c", ["Update"])
+    _counts(R, ctx, wc, "C08.c.count", {"yrs::update::Update::encode_diff", "<yrs::update::Update as yrs::updates::decoder::Decode>::decode"})
 
 
 def c13_b(R, ctx):
-    pass
+    from . import c09_flags
+    _wire(R, ctx, "C13.b", ["Block"])
+    c09_flags.rule_flags(R, ctx, rid="C13.b.flags", only=("yrs::slice::ItemSlice::encode",))
 
 
 def c13_d(R, ctx):
-    pass
+    wc = _wire(R, ctx, "C13.d", ["Snapshot", "Update"])
+    _counts(R, ctx, wc, "C13.d.count", {"yrs::store::Store::write_blocks_to"})
 
 
 def c14_a(R, ctx):
-    pass
+    _wire(R, ctx, "C14.a.wire", ["StickyIndex", "IndexScope", "Assoc"])
 
 
 def c18_c(R, ctx):
-    pass
+    _wire(R, ctx, "C18.c", ["Message", "SyncMessage", "AwarenessUpdate"])
 
 
 def c20_d(R, ctx):
-    pass
+    _wire(R, ctx, "C20.d", ["TypeRef"])
